@@ -321,9 +321,22 @@ def r3_state_after_tasks(ctx):
     ctx.floor('row writers reachable from evolve', n, 1)
     # call sites of _save_project_sig across the package
     allowed_callers = {'Evolver.__init__', 'Evolver.evolve'}
+
+    def only_from_allowed(fn, depth=0):
+        """fn is a private helper whose every call site is in a designated
+        caller (or in such a helper)."""
+        if fn.qualname in allowed_callers:
+            return True
+        if depth > 2 or not fn.name.startswith('_'):
+            return False
+        sites = p.callers_of_func(fn)
+        return bool(sites) and all(only_from_allowed(cf2, depth + 1)
+                                   for cf2, _ in sites)
     for cf, c in p.callers_of('_save_project_sig'):
-        if cf.qualname in allowed_callers:
-            ctx.ok(cf, 'designated caller of _save_project_sig', c)
+        if only_from_allowed(cf):
+            ctx.ok(cf, 'designated caller of _save_project_sig%s' % (
+                '' if cf.qualname in allowed_callers else
+                ' (private helper of one)'), c)
         else:
             ctx.finding(cf, c, '_save_project_sig called from %s' %
                         cf.qualname)
